@@ -2783,6 +2783,12 @@ func (s *Store) fsmSnapshot() (fSnap raft.FSMSnapshot, retErr error) {
 		// which will be faster than performing a full snapshot. All this means that we avoid breaking the
 		// series of incremental snapshots. The next Snapshot will comprise of two WAL files in that case.
 		if err := walWriter.Close(); err != nil {
+			// The WAL has already been checkpointed into the database, but its frames could
+			// not be staged (the deferred Cancel removes the partial file). The series of
+			// incremental snapshots is therefore broken, and only a full snapshot can repair it.
+			if err2 := s.snapshotStore.SetDueNext(snapshot.Full); err2 != nil {
+				s.logger.Fatalf("failed to set full snapshot needed after WAL staging failure: %s", err2)
+			}
 			return nil, err
 		}
 
